@@ -7,12 +7,19 @@ the numerals I, II, III, IV (IV first, else up to three I) and everything else i
 token by token (text as strings, numbers as integers, a proper prefix first).  Clauses of the statement:
 never raises; consistent under permutation of the initial order; decimals and I..IV by value; an unloc directly
 after its own chromosome; rank before name.
+
+The order is a function of the names and ranks the scaffolds carry at the moment of sorting, of nothing else:
+history cases keep the SAME Scaffold objects through several stages - keys taken, sorted by name in one
+assembly and by (rank, name) in a second assembly holding the same objects, then renamed / re-ranked in place
+(plain assignment, ScaffoldNamer.rename_by_size, ChrNamer.add_chr_prefix) and all of it again - and every
+stage is judged by the oracle on the current names and compared with new objects carrying the same names.
 """
 
 import itertools
 import random
 
 from tola.assembly.assembly import Assembly
+from tola.assembly.fragment import Fragment
 from tola.assembly.scaffold import Scaffold
 
 from .common import Collector
@@ -160,7 +167,9 @@ def trie_scan(names, col):
         node = root
         for el in k:
             kinds = node.setdefault("\0kinds", {})
-            kinds.setdefault(type(el).__name__, nm)
+            # what matters is whether the elements can be compared: text with text, numbers with numbers
+            kind = "text" if isinstance(el, str) else "number" if isinstance(el, (int, float)) else type(el).__name__
+            kinds.setdefault(kind, nm)
             if len(kinds) > 1 and "\0reported" not in node:
                 node["\0reported"] = True
                 bad.append(tuple(kinds.values()))
@@ -275,6 +284,165 @@ def check_nematode(prefix, suffix, rng, col):
                 return
 
 
+# ---------------------------------------------------------------------------------------------
+# history: the same objects sorted, renamed in place, sorted again
+#
+# input {"kind": "history", "stages": [stage, ...]}; object j is the same Scaffold in every stage
+#   {"names": [...], "ranks": [...]}   name and rank assigned to each object (the first stage creates them)
+#   {"by_size": [length, ...]}          each object gets one contig of that length, then
+#                                       ScaffoldNamer.rename_by_size hands the names out largest first
+#   {"chr_prefix": "SUPER_"}            ChrNamer(prefix).add_chr_prefix on every object
+
+
+def fresh_like(scaffolds):
+    return [Scaffold(s.name, rank=s.rank) for s in scaffolds]
+
+
+def enter_stage(objs, stage):
+    if "names" in stage:
+        if not objs:
+            objs.extend(Scaffold(nm, rank=rk) for nm, rk in zip(stage["names"], stage["ranks"]))
+        for o, nm, rk in zip(objs, stage["names"], stage["ranks"]):
+            o.name = nm
+            o.rank = rk
+    elif "by_size" in stage:
+        from tola.assembly.build_utils import ScaffoldNamer
+
+        for j, (o, ln) in enumerate(zip(objs, stage["by_size"])):
+            o.rows = [Fragment(f"ctg{j}", 1, ln, 1)]
+        ScaffoldNamer().rename_by_size(list(objs))
+    else:
+        from tola.assembly.build_utils import ChrNamer
+
+        namer = ChrNamer(chr_prefix=stage["chr_prefix"])
+        for o in objs:
+            namer.add_chr_prefix(o)
+
+
+def check_history(stages, col, inp):
+    objs = []
+    asm_a = asm_b = None
+    before = None
+    for si, stage in enumerate(stages):
+        enter_stage(objs, stage)
+        if asm_a is None:
+            asm_a = Assembly("a", scaffolds=list(objs))
+            asm_b = Assembly("b", scaffolds=list(reversed(objs)))
+        now = [(o.name, o.rank) for o in objs]
+        where = f"stage {si}: scaffolds {now}" + (f", the same objects that went through name_natural_key and both sorts as {before}" if before else "")
+        col.evaluations += 3
+        try:
+            keys = [Assembly.name_natural_key(o) for o in objs]
+            new_keys = [Assembly.name_natural_key(o) for o in fresh_like(objs)]
+        except Exception as e:
+            col.fail(f"name_natural_key raised {type(e).__name__}: {e} at {where}", inp)
+            return
+        for o, k, nk in zip(objs, keys, new_keys):
+            if k != nk:
+                col.fail(f"name_natural_key of the scaffold now named '{o.name}' is {k!r}, a new scaffold of that name gives {nk!r}; {where}", inp)
+                return
+        for what, asm in (("scaffolds_sorted_by_name", asm_a), ("smart_sort_scaffolds", asm_b), ("smart_sort_scaffolds", asm_a)):
+            given = list(asm.scaffolds)
+            new_asm = Assembly("n", scaffolds=fresh_like(given))
+            try:
+                if what == "smart_sort_scaffolds":
+                    if asm is asm_a and si % 2 == 0:
+                        continue  # the first assembly keeps its order in every other stage
+                    asm.smart_sort_scaffolds()
+                    new_asm.smart_sort_scaffolds()
+                    out, new_out = list(asm.scaffolds), list(new_asm.scaffolds)
+                else:
+                    out, new_out = asm.scaffolds_sorted_by_name(), new_asm.scaffolds_sorted_by_name()
+            except Exception as e:
+                col.fail(f"{what} raised {type(e).__name__}: {e} at {where}", inp)
+                return
+            msg = judge(given, out, what)
+            if msg:
+                col.fail(f"{msg} for initial order {[s.name for s in given]}; {where}", inp)
+                return
+            if [(s.rank, okey(s.name)) for s in out] != [(s.rank, okey(s.name)) for s in new_out]:
+                col.fail(
+                    f"{what} gives {[s.name for s in out]} but new scaffolds with the same names, ranks and initial order "
+                    f"come out as {[s.name for s in new_out]}; {where}",
+                    inp,
+                )
+                return
+        before = now
+
+
+HISTORY_SETS = [
+    ["scaffold_1", "scaffold_2", "scaffold_10"],
+    ["H_1", "H_2", "H_3"],
+    ["SUPER_2", "SUPER_10", "SUPER_B1"],
+    ["SUPER_1", "SUPER_1_unloc_1", "SUPER_2"],
+    ["I", "II", "IV"],
+    ["S01", "S1", "S2"],
+    ["chrIII", "chrV", "chrX"],
+    ["9", "10", "x"],
+]
+
+
+def history_cases(quick, rng, names):
+    """stage lists"""
+    # every reassignment of a 3-name set to its objects, and back; ranks unchanged, then ranks permuted too
+    for base in HISTORY_SETS:
+        for perm in itertools.permutations(range(3)):
+            if perm == (0, 1, 2):
+                continue
+            moved = [base[i] for i in perm]
+            yield [{"names": base, "ranks": [0, 0, 0]}, {"names": moved, "ranks": [0, 0, 0]}, {"names": base, "ranks": [0, 0, 0]}]
+            yield [{"names": base, "ranks": [1, 2, 3]}, {"names": base, "ranks": [[1, 2, 3][i] for i in perm]}, {"names": moved, "ranks": [2, 2, 1]}]
+    # the package's own renamers
+    yield [{"names": ["H_1", "H_2", "H_3"], "ranks": [3, 3, 3]}, {"by_size": [1000, 3000, 2000]}, {"by_size": [5, 4, 6]}]
+    yield [{"names": ["SUPER_1_unloc_1", "SUPER_1_unloc_2", "SUPER_1_unloc_10", "SUPER_1"], "ranks": [1, 1, 1, 1]}, {"by_size": [10, 20, 30, 40]}]
+    yield [{"names": ["B1", "SUPER_2", "SUPER_10"], "ranks": [2, 2, 2]}, {"chr_prefix": "SUPER_"}, {"chr_prefix": "chr"}]
+    yield [{"names": ["X", "W", "2", "10", "B2"], "ranks": [2, 2, 1, 1, 2]}, {"chr_prefix": "SUPER_"}]
+    # new names altogether: numbers given out again in another order, prefixes added, numerals for digits
+    yield [{"names": [f"scaffold_{n}" for n in (1, 2, 3)], "ranks": [0] * 3}, {"names": [f"scaffold_{n}" for n in (30, 20, 10)], "ranks": [0] * 3}]
+    yield [{"names": ["1", "2", "3", "4"], "ranks": [1] * 4}, {"names": ["IV", "III", "II", "I"], "ranks": [1] * 4}, {"names": ["chr4", "chr03", "chr20", "chr1"], "ranks": [1] * 4}]
+    pool = INTERESTING + names[:600]
+    for _ in range(60 if quick else 1500):
+        n = rng.randint(2, 6)
+        stages = [{"names": [rng.choice(pool) for _ in range(n)], "ranks": [rng.choice((0, 1, 1, 2)) for _ in range(n)]}]
+        for _ in range(rng.randint(1, 3)):
+            prev = stages[-1]
+            nm, rk = list(prev["names"]), list(prev["ranks"])
+            how = rng.randrange(4)
+            if how == 0:  # the same names dealt out again
+                rng.shuffle(nm)
+            elif how == 1:  # some scaffolds get another name
+                for j in rng.sample(range(n), rng.randint(1, n)):
+                    nm[j] = rng.choice(pool)
+            elif how == 2:  # ranks only
+                rng.shuffle(rk)
+                rk[rng.randrange(n)] = rng.choice((0, 1, 2, 3))
+            else:
+                nm = [rng.choice(["SUPER_", "chr", "x"]) + x for x in nm]
+            stages.append({"names": nm, "ranks": rk})
+        yield stages
+
+
+LONG_NUMBERS = [10**15 - 2, 2**53 - 2, 2**53, 10**16, 20240101123456781, 2**63 - 1, 2**64, 10**22 + 7, 10**39, 10**309]
+
+
+def long_number_sets(rng, quick):
+    """
+    (names, ranks): embedded decimal numbers compare by value however many digits they have - consecutive
+    numbers of 15 to 310 digits behind several stems, with unlocs of the first one, a zero-padded twin, and
+    numbers that differ in the leading digit or in the number of digits
+    """
+    numbers = LONG_NUMBERS + [rng.randrange(10**15, 10**26) for _ in range(5 if quick else 150)]
+    stems = ["ctg_", "SUPER_", "", "x.", "H2-"]
+    for k, n in enumerate(numbers):
+        for stem in stems[: 3 if quick else 5] if k < len(LONG_NUMBERS) else [stems[k % 5]]:
+            a, b, c = (f"{stem}{m}" for m in (n, n + 1, n + 2))
+            yield [c, b, a], None
+            yield [b, a + "_unloc_2", a, a + "_unloc_1"], [1, 1, 1, 1]
+            yield [c, f"{stem}00{n + 1}", a, b], [2, 0, 2, 2] if k % 2 else None
+            # the leading digits count: one more in the first digit and one less at the end; one digit fewer
+            yield [f"{stem}{n + 10 ** (len(str(n)) - 1) - 1}", a, f"{stem}{n // 10}"], None
+
+
 def replay(inp):
     col = Collector("replay")
     rng = random.Random(0)
@@ -291,6 +459,8 @@ def replay(inp):
     elif inp["kind"] == "all":
         names = list(all_names(inp["alphabet"], inp["max_len"]))
         check_global(names, rng, col, 2)
+    elif inp["kind"] == "history":
+        check_history(inp["stages"], col, inp)
     return col.failures[0]["message"] if col.failures else None
 
 
@@ -312,6 +482,10 @@ def run(tier, seed, **opts):
         f"oracle order; all pairs of names of length <= {pair_len} are sorted literally; (2) multisets of <= 5 names (incl. "
         "duplicates, zero-padded, zero-valued, I/V/X runs, wide alphabet) under all permutations of the initial order, by name and "
         "by (rank, name); (3) families <prefix><n>[_unloc_<m>] n <= 120 and nematode chromosomes with unlocs; "
+        "(4) histories: the same <= 6 Scaffold objects in two assemblies are keyed and sorted, renamed / re-ranked in place "
+        "(every reassignment of 3-name sets, ScaffoldNamer.rename_by_size, ChrNamer.add_chr_prefix, random renames), keyed and "
+        "sorted again, judged on the current names and against new objects with the same names; (5) consecutive numbers of "
+        "15 to 310 digits behind several stems, with unlocs and zero-padded twins, under all permutations; "
         "non-trivial = distinct name multisets / pairs sorted"
     )
     # (1) exhaustive small alphabet
@@ -404,9 +578,27 @@ def run(tier, seed, **opts):
         check_sort(nm, rk, col, inp)
         col.evaluations += 2
         col.distinct.add((tuple(nm), tuple(rk)))
+    # (5) digit runs of 15 and more digits
+    for chosen, ranks in long_number_sets(rng, quick):
+        if col.full:
+            break
+        check_set(chosen, ranks, col)
+        col.distinct.add((tuple(sorted(chosen)), tuple(ranks) if ranks else None))
+    # (4) history: the same objects keyed and sorted, renamed / re-ranked in place, keyed and sorted again
+    n_hist = 0
+    for stages in history_cases(quick, rng, names):
+        if col.full:
+            break
+        inp = {"kind": "history", "stages": stages}
+        check_history(stages, col, inp)
+        n_hist += 1
+        col.distinct.add(("history", repr(stages)))
+        if n_hist == 3:
+            col.samples.append(inp)
     return col.result(
         bounds=f"all {len(names)} names of length <= {max_len} over {len(SMALL_ALPHABET)} characters; all pairs of length <= {pair_len}"
         + ("" if quick else " (length-4 pairs: every 7th)")
-        + f"; {n_sets} multisets of <= 5 names x all permutations; {len(PREFIXES) * 3} families up to n = 120; 18 nematode sets",
+        + f"; {n_sets} multisets of <= 5 names x all permutations; {len(PREFIXES) * 3} families up to n = 120; 18 nematode sets; "
+        f"{n_hist} histories of 2-4 stages on the same <= 6 scaffold objects",
         exhaustive=True,
     )
